@@ -4,7 +4,7 @@ import Drivers.Proto
 open EzdxfVerif EzdxfVerif.Render Proto
 
 /-! Line protocol driver of C18.
-    request  `draw|<layout>|<export 0/1>|<layers>|<blocks>|<entities>`   (also `spec|…`, `unfold|…`)
+    request  `draw|<layout>|<export 0/1>|<layers>|<blocks>|<entities>`   (also `spec|…`, `reach|…`)
       layers   = `name,color,truecolor|-1,transparency|-1,linetype,lineweight,flags,plot` joined by `;`
       blocks   = `name,basex,basey:<entities>` joined by `!`
       entities = joined by `;`
@@ -151,9 +151,9 @@ def step (line : String) : String :=
   | ["spec", layout, exp, layers, blocks, ents] =>
     match parseReq layout exp layers blocks ents with
     | some r =>
-      match unfold r.doc (r.doc.blocks.length + 1) Aff.id r.ents with
+      match unfold r.doc (r.doc.blocks.length + 1) r.ents with
       | some f => showPrims (Spec.flatten r.ctx none Aff.id f)
-      | none => "unlawful"
+      | none => "no-tree"
     | none => "bad-op parse"
   | ["reach", layout, exp, layers, blocks, ents] =>
     match parseReq layout exp layers blocks ents with
